@@ -14,24 +14,10 @@ from vlib.e2e import Kit, FIXTURES, PKGS, KEYS
 # Keys of suspected genuine defects of relic (reported to the maintainer of /verif, who decides between a fix and known_findings.json).
 # They are printed as SUSPECTED-DEFECT lines (with a replay file) instead of VIOLATION lines.  Exact keys only.
 SUSPECTED = [
-    # DESIGN §5 F09: kept members are re-indexed as if they were contiguous from offset 0.  `relic sign -T jar` on a JAR with a launcher-script
-    # prefix (absolute offsets) exits 0 and writes an archive no reader opens (new members are inserted BEFORE the stub, offsets point nowhere);
-    # a gap between members / before the central directory does the same for jar, vsix and appx even without -T.
-    "C03:spec:jar:output-malformed@prefixed",
-    "C03:spec:jar:output-malformed@gapped",
-    "C03:spec:vsix:output-malformed@gapped",
-    "C03:spec:appx:output-malformed@gapped",
-    # signers/vsix/mangle.go keepFile drops every *.rels part: package-level relationships that are not signature relationships and part-level
-    # relationship parts of the input disappear from the signed package (exit 0)
-    "C03:spec:vsix:payload-changed@relationships",
-    # lib/signappx/contenttypes.go Add: a Default content type declared by the package for dll/exe/png/xml is overwritten with relic's own default
-    "C03:spec:appx:payload-changed@content-types",
-    # (C03:spec:msi:output-malformed@names — DESIGN §5 F05, directory entries ordered by a case-sensitive UTF-8 comparator so that a reader doing the
-    #  [MS-CFB] 2.6.4 lookup misses them — reproduced here until /repo f8ff9c3 "fix: order compound-file directory entries as MS-CFB prescribes";
-    #  no longer listed: if it comes back it is a VIOLATION.)
-    # lib/authenticode/powershell.go DigestPowershell assumes CRLF in front of an existing signature block: with a bare LF the last character of the
-    # script text is cut off together with the line break (exit 0)
-    "C03:spec:ps:payload-changed@foreign-block-lf",
+    # empty.  History: C03:spec:jar:output-malformed@prefixed and C03:spec:{jar,vsix,appx}:output-malformed@gapped (DESIGN §5 F09) were fixed by /repo
+    # 69dfa82 "fix: refuse to rewrite zip archives whose members are not contiguous"; C03:spec:msi:output-malformed@names (F05) by f8ff9c3.  A regression
+    # of any of them is a VIOLATION.  C03:spec:vsix:payload-changed@relationships, C03:spec:appx:payload-changed@content-types and
+    # C03:spec:ps:payload-changed@foreign-block-lf are entries of /verif/known_findings.json (printed as KNOWN-FINDING by vlib/common.py).
 ]
 
 ZIPFMT = ("jar", "apk", "vsix", "appx", "xap")
@@ -455,4 +441,9 @@ def run(ctx, replay=None):
     return ctx.finish("proof", cov, ["payload is judged by the harness-owned readers of vlib/c03_readers.py (PKWARE APPNOTE, PE/COFF + Authenticode, MS-CFB, MS-CAB, "
                                      "ar/deb, RPM header structure, UDIF koly trailer, xar TOC/heap, Mach-O load commands, XML trees, DER, RFC 4880) — not by Windows/macOS "
                                      "loaders", "fat Mach-O, Release (non-PGP path) are refused by relic sign: only the refusal is checked",
+                                     "judged refusals (exit != 0, input untouched, no output): jar/vsix/appx archives whose members are not contiguous from byte 0 "
+                                     "(launcher prefix with -T, gaps, slack before the directory: 'zip members are not stored contiguously ...', /repo 69dfa82), archive "
+                                     "comments and relative-offset prefixes (zip central directory not found / expected end record), prefix without -T (unknown filetype), "
+                                     "XAP re-sign, PE with non-contiguous sections or data after the certificate table, CAB with foreign reserve data or prev/next strings, "
+                                     "CFB without a mini stream",
                                      "formats outside the byte-level Coq modules are covered by differential end-to-end runs only"])
